@@ -300,6 +300,10 @@ def b_not(b: B) -> B:
     if b.kind == "le":
         # not (l <= 0)  <=>  l >= 1  <=>  1 - l <= 0   (integers)
         return B("le", Lin.const(1) - b.a)
+    if b.kind == "and":
+        return b_or([b_not(x) for x in b.a])
+    if b.kind == "or":
+        return b_and([b_not(x) for x in b.a])
     return B("not", b)
 
 
@@ -382,8 +386,8 @@ class State:
 
     def clone(self):
         s = State()
-        s.env = dict(self.env)
-        s.heap = dict(self.heap)
+        s.env = {k: (v.clone() if isinstance(v, GhostList) else v) for k, v in self.env.items()}
+        s.heap = {k: (v.clone() if isinstance(v, GhostList) else v) for k, v in self.heap.items()}
         s.pc = list(self.pc)
         s.effects = list(self.effects)
         s.ret = self.ret
@@ -399,25 +403,44 @@ class State:
 
 
 class GhostList:
-    """Symbolic list tracked through its *length sum* (Σ x.length over elements),
-    element count, and identity facts about its first/last element."""
+    """Symbolic list tracked through its *length sum* (Σ x.length over elements), its
+    element count, and canonical names for elements: `name@i` is the element at original
+    index i from the front, `name@-i` the i-th from the back.  `front`/`back` count pops."""
 
     def __init__(self, name, total: Lin | None = None, count: Lin | None = None):
         self.name = name
         self.total = total if total is not None else Lin.atom(f"ΣL({name})")
         self.count = count if count is not None else Lin.atom(f"len({name})")
-        self.first = None
-        self.last = None
+        self.front = 0
+        self.back = 0
+        self.alias = {}  # canonical element name -> value known to be that element (identity facts / stores)
         self.log = []  # structural operations in order
 
     def clone(self):
         g = GhostList(self.name, self.total, self.count)
-        g.first, g.last = self.first, self.last
+        g.front, g.back = self.front, self.back
+        g.alias = dict(self.alias)
         g.log = list(self.log)
         return g
 
+    def elem_name(self, i):
+        """Canonical name of self[i] for i >= 0 (from front) or i < 0 (from back)."""
+        return f"{self.name}@{self.front + i}" if i >= 0 else f"{self.name}@-{self.back - i}"
+
+    def elem(self, i):
+        nm = self.elem_name(i)
+        return self.alias.get(nm, Sym(nm))
+
+    @property
+    def first(self):
+        return self.elem(0)
+
+    @property
+    def last(self):
+        return self.elem(-1)
+
     def __repr__(self):
-        return f"GhostList({self.name}, ΣL={self.total}, n={self.count})"
+        return f"GhostList({self.name}, ΣL={self.total}, n={self.count}, front={self.front}, back={self.back})"
 
 
 # --------------------------------------------------------------------------- interpreter
@@ -508,7 +531,14 @@ class SymExec:
             if self.contradicts(st, b):
                 st.status = "infeasible"
                 return [st]
-            st.pc.append(b)
+            if b.kind == "and":
+                for x in b.a:
+                    if self.contradicts(st, x):
+                        st.status = "infeasible"
+                        return [st]
+                st.pc.extend(b.a)
+            elif b.kind != "const":
+                st.pc.append(b)
             self.learn(st, ev.node, ev.val, func, depth)
             return [st]
         if k == "return" or k == "implicit_return":
@@ -575,9 +605,6 @@ class SymExec:
                         return True
         return False
 
-    def learn(self, st, test, truth, func, depth):
-        """Identity facts from `x is y` / `isinstance` conditions (hook for subclasses)."""
-
     # ------------------------------------------------------------------ statements
 
     def stmt(self, node, st: State, func, depth):
@@ -612,6 +639,17 @@ class SymExec:
         raise AnalysisError(f"statement {type(node).__name__} at line {node.lineno} is outside the analysed fragment")
 
     def delete(self, target, st, func, depth):
+        if isinstance(target, ast.Subscript) and not isinstance(target.slice, ast.Slice):
+            lst = self.eval(target.value, st, func, depth)
+            idx = self.eval(target.slice, st, func, depth)
+            if isinstance(lst, GhostList):
+                self.ghost_call(st, target, lst, "pop", [idx])
+                return
+        elif isinstance(target, ast.Subscript):
+            lst = self.eval(target.value, st, func, depth)
+            if isinstance(lst, GhostList):
+                self.ghost_call(st, target, lst, "delslice", [])
+                return
         st.effects.append(("del", target, None))
 
     def call_stmt(self, call, st, func, depth):
@@ -685,23 +723,21 @@ class SymExec:
 
     def set_item(self, st, obj, idx, v, node):
         if isinstance(obj, GhostList):
-            i = idx.c if isinstance(idx, Lin) and idx.is_const() else None
-            old = obj.first if i == 0 else obj.last if i == -1 else None
+            i = int(idx.c) if isinstance(idx, Lin) and idx.is_const() else None
             g = obj
-            if old is None:
+            if i not in (0, -1):
                 st.effects.append(("list-store-unknown", node, (obj.name, idx)))
                 g.total = Lin.atom(st.new_name(f"ΣL({obj.name})?"))
-            else:
-                g.total = g.total - self._len(st, old) + self._len(st, v)
-                # same object may be both first and last (single row)
-                if g.first is not None and g.first == old:
-                    g.first = v if i == 0 or (g.last is not None and g.last == old) else g.first
-                if g.last is not None and g.last == old:
-                    g.last = v
-                if i == 0:
-                    g.first = v
-                if i == -1:
-                    g.last = v
+                g.log.append(("store?", i, None, v, node))
+                return
+            nm = g.elem_name(i)
+            old = g.alias.get(nm, Sym(nm))
+            g.total = g.total - self._len(st, old) + self._len(st, v)
+            # identity facts: every canonical name known to denote the same object now denotes v
+            for k2, val in list(g.alias.items()):
+                if val == old:
+                    g.alias[k2] = v
+            g.alias[nm] = v
             g.log.append(("store", i, old, v, node))
             st.effects.append(("list-store", node, (obj.name, i, old, v)))
             return
@@ -996,15 +1032,7 @@ class SymExec:
             except Exception:
                 pass
         if isinstance(obj, GhostList) and isinstance(idx, Lin) and idx.is_const():
-            i = int(idx.c)
-            if i == 0:
-                if obj.first is None:
-                    obj.first = Sym(st.new_name(f"{obj.name}[0]"))
-                return obj.first
-            if i == -1:
-                if obj.last is None:
-                    obj.last = Sym(st.new_name(f"{obj.name}[-1]"))
-                return obj.last
+            return obj.elem(int(idx.c))
         if isinstance(obj, Sym):
             return Sym(f"{obj.name}[{_short(idx)}]")
         if isinstance(obj, Tup | Const) and isinstance(idx, Sym | Lin | Str):
@@ -1074,6 +1102,10 @@ class SymExec:
             return Enum(args[0], args[1] if len(args) > 1 else kwargs.get("start", Lin.const(0)))
         if name == "range":
             return Range(args)
+        if isinstance(n.func, ast.Attribute) and n.func.attr in _LIST_MUTATORS | {"copy"}:
+            recv0 = self.eval(n.func.value, st, func, depth)
+            if isinstance(recv0, GhostList):
+                return self.ghost_call(st, n, recv0, n.func.attr, args)
         if isinstance(n.func, ast.Attribute) and n.func.attr == "join" and len(args) == 1:
             sep = self.eval(n.func.value, st, func, depth)
             if isinstance(sep, Const) and isinstance(sep.v, str | bytes):
@@ -1207,6 +1239,43 @@ class SymExec:
                     return None
         return out
 
+    def ghost_call(self, st, n, g: GhostList, attr, args):
+        if attr == "pop":
+            i = -1
+            if args:
+                i = int(args[0].c) if isinstance(args[0], Lin) and args[0].is_const() else None
+            if i in (0, -1):
+                el = g.elem(i)
+                g.total = g.total - self._len(st, el)
+                g.count = g.count - 1
+                if i == 0:
+                    g.front += 1
+                else:
+                    g.back += 1
+                g.log.append(("pop", i, el, None, n))
+                st.effects.append(("list-pop", n, (g.name, i, el)))
+                return el
+        g.log.append((attr + "?", None, None, None, n))
+        st.effects.append(("list-op-unknown", n, (g.name, attr, args)))
+        g.total = Lin.atom(st.new_name(f"ΣL({g.name})?"))
+        g.count = Lin.atom(st.new_name(f"len({g.name})?"))
+        return Unknown(f"list.{attr}")
+
+    def learn(self, st, test, truth, func, depth):
+        """Identity facts: `<ghost>[0|-1] is x` true  =>  that element *is* x."""
+        from .flow import cond_facts
+
+        for t, v in cond_facts(test, truth):
+            if not v or not isinstance(t, ast.Compare) or len(t.ops) != 1 or not isinstance(t.ops[0], ast.Is):
+                continue
+            for a, b in ((t.left, t.comparators[0]), (t.comparators[0], t.left)):
+                if isinstance(a, ast.Subscript) and not isinstance(a.slice, ast.Slice):
+                    lst = self.eval(a.value, st, func, depth)
+                    idx = self.eval(a.slice, st, func, depth)
+                    if isinstance(lst, GhostList) and isinstance(idx, Lin) and idx.is_const() and int(idx.c) in (0, -1):
+                        other = self.eval(b, st, func, depth)
+                        lst.alias[lst.elem_name(int(idx.c))] = other
+
     def isinstance_(self, st, v, clsv, node):
         names = []
         items = clsv.items if isinstance(clsv, Tup) else [clsv]
@@ -1282,6 +1351,21 @@ class SymExec:
                 return itv.items[n]
         if isinstance(itv, Range):
             return itv.element(self.iter_index(st, node, n))
+        if isinstance(itv, GhostList):
+            return itv.elem(n)
+        if isinstance(itv, Slice) and isinstance(itv.obj, GhostList):
+            g = itv.obj
+            lo = int(itv.lo.c) if isinstance(itv.lo, Lin) and itv.lo.is_const() else (None if itv.lo is None else "?")
+            stp = int(itv.step.c) if isinstance(itv.step, Lin) and itv.step.is_const() else (1 if itv.step is None else "?")
+            if stp == 1 and isinstance(lo, int) and lo >= 0 and itv.hi is None:
+                return g.elem(lo + n)
+            if stp == 1 and lo is None and itv.hi is None:
+                return g.elem(n)
+            if stp == -1 and isinstance(lo, int) and lo < 0 and itv.hi is None:
+                return g.elem(lo - n)
+            if stp == -1 and lo is None and itv.hi is None:
+                return g.elem(-1 - n)
+            return Unknown("slice iteration")
         base = itv.name if isinstance(itv, Sym | GhostList) else f"iter@{node.lineno}"
         return Sym(f"{base}[{n}]")
 
@@ -1451,6 +1535,39 @@ def _short(v):
 
 def _ord2(a, b):
     return (a, b) if repr(a) <= repr(b) else (b, a)
+
+
+def deep_subst(v, mapping):
+    """Substitute atoms by Lins everywhere (inside opaque atoms and conditions too)."""
+    if isinstance(v, Lin):
+        out = Lin.const(v.c)
+        for a, c in v.t.items():
+            if a in mapping:
+                out = out + as_lin(mapping[a]).scale(c)
+            elif isinstance(a, tuple) and a and a[0] != "mono":
+                na = (a[0], *[deep_subst(x, mapping) if isinstance(x, Lin | B) else x for x in a[1:]])
+                if a[0] in ("max", "min"):
+                    na = (a[0], *sorted(na[1:], key=repr))
+                out = out + Lin({na: c})
+            elif isinstance(a, tuple):
+                out = out + Lin({a: c}).subst(mapping)
+            else:
+                out = out + Lin({a: c})
+        return out
+    if isinstance(v, B):
+        if v.kind in ("le", "eq"):
+            r = B(v.kind, deep_subst(v.a, mapping))
+            if r.a.is_const():
+                return B("const", (r.a.c <= 0) if v.kind == "le" else (r.a.c == 0))
+            return r
+        if v.kind == "not":
+            return b_not(deep_subst(v.a, mapping))
+        if v.kind == "and":
+            return b_and([deep_subst(x, mapping) for x in v.a])
+        if v.kind == "or":
+            return b_or([deep_subst(x, mapping) for x in v.a])
+        return v
+    return v
 
 
 def sym_self(func: Func, name="self") -> Sym:
